@@ -205,7 +205,9 @@ def adfStep (a : AdfSt) (l : String) (ws : List String) : Option (List String ×
   | ["ngbig", k] =>
     -- k mutual attack pairs: exactly 2^k stable = two-valued models (known by construction)
     let m := 2 ^ (k.toNat?.getD 0)
-    some ([l, s!"~ count={m} distinct={m} channel={m} twoval={m} bounded={m} bounded-distinct={m}"], a)
+    -- the bounded-channel variant runs on max (k-3) 1 pairs
+    let mb := 2 ^ (Nat.max ((k.toNat?.getD 0) - 3) 1)
+    some ([l, s!"~ count={m} distinct={m} channel={m} twoval={m} bounded={mb} bounded-distinct={mb}"], a)
   | ["ngparity", chain, _, _] =>
     -- s0: not s1, s1: not s0, chain s2: s0, s3: s2, ..., last: exclusive or of s0 and the chain.
     -- exactly two two-valued models, both stable (known by construction): s0 with the whole chain
